@@ -186,6 +186,45 @@ def gen_module(rng, params):
     # CFI procedures (x86-64 ELF): contiguous runs of code blocks
     if isa == "x64" and fmt == "elf" and rng.random() < params.get("cfi_p", 0.0):
         _gen_cfi(rng, isa, blocks, desc, data_labels, ids)
+    # symbol tables for delete_symbol (C19)
+    if rng.random() < params.get("symtabs_p", 0.0):
+        names = code_labels + data_labels + desc["externs"]
+        st = {}
+        if fmt == "elf":
+            st["elf_info"] = [n for n in names if rng.random() < 0.7]
+            st["tabidx"] = {n: [[rng.choice([".symtab", ".dynsym"]), rng.randint(0, 50)] for _ in range(rng.randint(1, 2))] for n in names if rng.random() < 0.4}
+            if names and rng.random() < 0.7:
+                defs = {"1": [["libtest.so"], 1]}
+                reqs = {}
+                entries = {}
+                nid = 2
+                shared = []
+                for n in names:
+                    if rng.random() < 0.5:
+                        continue
+                    if n in desc["externs"]:
+                        lib = rng.choice(["libc.so.6", "libm.so.6"])
+                        if shared and rng.random() < 0.4 and any(s[0] == lib for s in shared):
+                            vid = rng.choice([s[1] for s in shared if s[0] == lib])
+                        else:
+                            vid = nid
+                            nid += 1
+                            reqs.setdefault(lib, {})[str(vid)] = f"VER_{vid}"
+                            shared.append((lib, vid))
+                    else:
+                        if shared and rng.random() < 0.3 and any(s[0] is None for s in shared):
+                            vid = rng.choice([s[1] for s in shared if s[0] is None])
+                        else:
+                            vid = nid
+                            nid += 1
+                            defs[str(vid)] = [[f"V_{vid}"] + ([f"V_OLD{vid}"] if rng.random() < 0.3 else []), 0]
+                            shared.append((None, vid))
+                    entries[n] = [vid, rng.random() < 0.2]
+                st["versions"] = {"defs": defs, "reqs": reqs, "entries": entries}
+        else:
+            st["pe_imports"] = [n for n in desc["externs"] if rng.random() < 0.7]
+            st["pe_exports"] = [n for n in code_labels if rng.random() < 0.3]
+        desc["symtabs"] = st
     # symbolForwarding entries (extern -> some symbol)
     if desc["externs"] and rng.random() < params.get("fwd_p", 0.0):
         pool = code_labels + data_labels + desc["externs"]
@@ -903,6 +942,8 @@ def _gen_session(rng, model, params, index):
                 i += 1
     if params.get("retarget_p") and rng.random() < params["retarget_p"]:
         ops.extend(gen_retargets(rng, model, wl))
+    if params.get("delsym_p") and rng.random() < params["delsym_p"]:
+        ops.extend(gen_delsyms(rng, model, wl, ops))
     if params.get("c09"):
         # batch vs one-at-a-time is only defined for modifications at
         # distinct places (same-offset order is a registration-order matter)
@@ -981,6 +1022,31 @@ def gen_retargets(rng, model, wl):
         taken.add(a)
         ops.append({"k": "retarget", "a": a, "b": b})
     return ops
+
+
+def gen_delsyms(rng, model, wl, ops):
+    """delete_symbol requests: any number at once, any force flags, the
+    same symbol possibly twice; not for symbols that other requests of the
+    session (retargets, patches) mention."""
+    busy = set()
+    for o in ops:
+        if o["k"] == "retarget":
+            busy.update([o["a"], o["b"]])
+        for l in (o.get("patch") or {}).get("lines") or []:
+            if l.get("t"):
+                busy.add(l["t"])
+            if "raw" in l:
+                busy.update(w for w in l["raw"].replace(",", " ").split())
+    names = [n for n in wl["code"] + wl["data"] + wl["externs"] if n not in busy]
+    out = []
+    if not names:
+        return out
+    for n in rng.sample(names, min(len(names), rng.choice([1, 1, 2, 3]))):
+        force = rng.random() < 0.75
+        out.append({"k": "delsym", "name": n, "force": force})
+        if rng.random() < 0.15:
+            out.append({"k": "delsym", "name": n, "force": rng.random() < 0.5})
+    return out
 
 
 def _op_func(model, op):
